@@ -468,4 +468,70 @@ def _contains(root: ast.AST, node: ast.AST) -> bool:
     return any(n is node for n in ast.walk(root))
 
 
-RULES = [r1_builtins, r2_who_may_eval, r3_gate, r4_inert]
+MUT_METHODS = {'update', 'setdefault', 'pop', 'popitem', 'clear', 'append', 'extend', 'insert', 'remove', 'add', 'discard', 'sort', 'reverse',
+               '__setitem__', '__delitem__', '__ior__'}
+
+
+def r5_shared_tables_are_read_only(a, tier):
+    rep = RuleReport(
+        'C17.R5',
+        'the allowed-names tables stay what safe_builtins() computed: the result of a memoised function (@cache / @lru_cache: one '
+        'object shared by all callers in the process) is never mutated by a caller - no augmented assignment (|=, +=), subscript '
+        'store or delete, or mutating method on a name bound to such a call or on the call itself; a context is built with `|` '
+        '(a new dict), so names bound by one constant expression cannot leak into the next',
+        floor=3,
+    )
+    memo = {f.name: f for f in a.p.functions.values() if any(d.split('.')[-1] in ('cache', 'lru_cache') or d.split('.')[-1].startswith('lru_cache')
+                                                             for d in f.decorators)}
+    if 'safe_builtins' not in memo:
+        raise AnalysisError('tatsu.util.safeeval.safe_builtins is no longer memoised: review what the gate compares names against')
+
+    def memo_call(e) -> str | None:
+        if isinstance(e, ast.Call) and not e.args and not e.keywords or isinstance(e, ast.Call):
+            nm = dotted(e.func).split('.')[-1]
+            if nm in memo:
+                r = a.resolver.resolve_call(cur_fn, e) if cur_fn is not None else None
+                if r is None or r.kind != 'project' or any(t.qualname == memo[nm].qualname for t in r.targets):
+                    return nm
+        return None
+
+    for f in a.p.functions.values():
+        if f.module.name.startswith(('tatsu.tool', 'tatsu.boot.bootstrap', 'tatsu.boot.bootparser')):
+            continue
+        cur_fn = f
+        shared: dict[str, str] = {}
+        for n in walk_no_defs(f.node):
+            if isinstance(n, (ast.Assign, ast.AnnAssign)) and n.value is not None:
+                nm = memo_call(n.value)
+                tgts = n.targets if isinstance(n, ast.Assign) else [n.target]
+                if nm:
+                    for t in tgts:
+                        if isinstance(t, ast.Name):
+                            shared[t.id] = nm
+        if not shared and not any(memo_call(x) for x in walk_no_defs(f.node) if isinstance(x, ast.Call)):
+            continue
+
+        def is_shared(e) -> str | None:
+            if isinstance(e, ast.Name) and e.id in shared:
+                return shared[e.id]
+            return memo_call(e)
+        for n in walk_no_defs(f.node):
+            hit = None
+            if isinstance(n, ast.AugAssign):
+                hit = is_shared(n.target) and (is_shared(n.target), f'`{norm(n)[:70]}` updates it in place')
+            elif isinstance(n, (ast.Assign, ast.Delete)):
+                for t in (n.targets if isinstance(n, (ast.Assign, ast.Delete)) else []):
+                    if isinstance(t, ast.Subscript) and is_shared(t.value):
+                        hit = (is_shared(t.value), f'`{norm(n)[:70]}` stores into / deletes from it')
+            elif isinstance(n, ast.Call) and isinstance(n.func, ast.Attribute) and n.func.attr in MUT_METHODS and is_shared(n.func.value):
+                hit = (is_shared(n.func.value), f'`{norm(n)[:70]}` mutates it')
+            if hit:
+                rep.fail(f.qualname, f'mutates-shared:{hit[0]}', f'{hit[1]}: {hit[0]}() is memoised, every caller in the process gets the same '
+                         f'object, so what this call adds (AST bindings, names exposed by one semantics object) is visible to every later '
+                         f'constant expression and to is_eval_safe/safe_eval called with the table', f'{f.module.relpath}:{n.lineno}')
+        rep.add({'function': f.qualname, 'names_bound_to_shared_tables': shared or None,
+                 'uses': sorted({memo_call(x) for x in walk_no_defs(f.node) if isinstance(x, ast.Call) and memo_call(x)})})
+    return rep
+
+
+RULES = [r1_builtins, r2_who_may_eval, r3_gate, r4_inert, r5_shared_tables_are_read_only]
